@@ -142,6 +142,26 @@ class BasicBlockNode:
         except IndexError:
             return None
 
+    def get_instruction_position(self, instr: Instr) -> int:
+        """Get the position of the given instruction in the basic block.
+
+        The basic block may also contain pseudo-instructions (e.g., TryEnd), so the
+        position differs from a (negative) index that counts instructions only.
+
+        Args:
+            instr: The instruction to look for
+
+        Returns:
+            The position of the instruction in the basic block
+
+        Raises:
+            ValueError: If the instruction is not part of the basic block
+        """
+        for position, candidate in enumerate(self._basic_block):
+            if candidate is instr:
+                return position
+        raise ValueError(f"{instr} is not part of the basic block")
+
     @property
     def original_instructions(self) -> Iterable[Instr]:
         """Provides the original instructions of the basic block.
